@@ -1052,7 +1052,7 @@ class SetAlg:
                 break
         if h == "attr" and len(t) == 3 and is_term(t[1]) and t[1][0] == "mut":
             r_ = _read_through(t)
-            if r_ is not t:
+            if r_ != t:
                 return self.canon(r_)
         if h == "index" and len(t) == 3 and is_term(t[1]) and t[1][0] in ("tuplelit", "listlit") and t[2][0] == "const" and isinstance(t[2][1], int) \
                 and not any(x[0] == "star" for x in t[1][1]) and -len(t[1][1]) <= t[2][1] < len(t[1][1]):
